@@ -28,6 +28,7 @@ def _gen(rnd):
     par = Parent(id="chrG", sequence=Sequence(R, Alphabet.NT_EXTENDED_GAPPED, id="chrG", type=SequenceType.CHROMOSOME))
     model, genes, fcs = [], [], []
     pos = 5
+    tagnums = rnd.sample([2, 9, 10, 11, 19, 100, 101, 20], 5)
     for gi in range(rnd.randrange(1, 5)):
         st = rnd.choice("+-")
         k = rnd.randrange(1, 4)
@@ -39,7 +40,7 @@ def _gen(rnd):
             p = e + rnd.randrange(2, 9)
         if blocks[-1][1] > L - 5:
             break
-        tag = "LT_%02d" % gi
+        tag = "LT_%d" % tagnums[gi]  # unique, but not in lexicographic order along the sequence (LT_9 before LT_10)
         if rnd.random() < 0.2:
             fs = [FeatureInterval([b[0] for b in blocks], [b[1] for b in blocks], Strand.from_symbol(st),
                                   feature_name="feat%d" % gi, sequence_name="chrG", parent_or_seq_chunk_parent=par)]
@@ -153,14 +154,18 @@ def _events(args):
                     translations.append([q["translation"][0], prot, strand, len(parts)])
             ev.append(["gbk", flavour, model, records, str(rec.seq) == R, translations, orders])
             src = _project(coll, flavour)
-            outs = []
+            outs, orders_by_mode = [], []
             for mode in ("SORTED", "LOCUS_TAG", "HYBRID"):
                 try:
                     recs = list(parse_genbank(io.StringIO(text), gbk_type=GenBankParserType[mode]))
                     outs.append(["v", _project(recs[0].annotation.to_annotation_collection(), flavour)])
+                    # the order in which the parsed record lists its genes (locus tags), as returned
+                    orders_by_mode.append([str(g.locus_tag) for g in (recs[0].annotation.genes or [])])
                 except Exception as ex:
                     outs.append(["x", type(ex).__name__ + ":" + str(ex)[:60]])
-            ev.append(["reparse", flavour, src] + outs)
+                    orders_by_mode.append(["!"])
+            src_order = [str(g.locus_tag) for g in sorted(coll.genes, key=lambda x: (x.start, x.end))]
+            ev.append(["reparse", flavour, src] + outs + [src_order, orders_by_mode])
     return ev
 
 
